@@ -85,9 +85,9 @@ def calls_for(path, kind):
         C += [('read_inline', (ni // 2,)), ('read_inline', (ni - 1,)), ('read_crossline', (nx - 1,)), ('read_crossline', (1,)),
               ('read_zslice', (ns // 2,)), ('read_zslice', (ns - 1,)), ('read_volume', ()),
               ('read_subvolume', (1, min(ni, 6), 2, min(nx, 7), 3, min(ns, 9))),
-              ('get_trace', (tc // 2,)), ('get_trace', (tc - 1, 2, 7)),
+              ('get_trace', (tc // 2,)), ('get_trace', (tc - 1, 2, min(ns, 7))),
               ('read_correlated_diagonal', (0,)), ('read_anticorrelated_diagonal', (nx - 1,)),
-              ('read_correlated_diagonal', (1, 1, 3, 2, 9))]
+              ('read_correlated_diagonal', (1, 1, 3, 2, min(ns, 9)))]
     else:
         tc, ns = r.tracecount, r.n_samples
         C += [('get_trace', (0,)), ('get_trace', (tc - 1,)), ('read_subplane', (1, tc - 2, 2, ns - 1)), ('read_subplane', (0, tc, 0, ns))]
@@ -173,7 +173,12 @@ def run_local(label, path, kind):
         f = CountingFile(path)
         r = SgzReader(f)
         n0 = f.n
-        want = canon(do_call(r, name, args))
+        try:
+            want = canon(do_call(r, name, args))
+        except Exception as e:
+            R.violation('oracle', {'file': label, 'backend': 'file', 'call': name, 'args': list(args)},
+                        f'fault-free call raised {type(e).__name__}: {e}')
+            continue
         plan = f.all[n0:]
         r.close()
         K = len(plan)
@@ -291,7 +296,12 @@ def run_blob(label, path, kind):
         r = SgzReader(b)
         assert r.local is False and r.loader.n_workers == 20
         n0 = len(b.order)
-        want = canon(do_call(r, name, args))
+        try:
+            want = canon(do_call(r, name, args))
+        except Exception as e:
+            R.violation('oracle', {'file': label, 'backend': 'blob', 'call': name, 'args': list(args)},
+                        f'fault-free call on the blob backend raised {type(e).__name__}: {e}')
+            continue
         plan = b.order[n0:]
         K = len(plan)
         info0 = {'file': label, 'backend': 'blob', 'call': name, 'args': list(args), 'reads': K}
@@ -378,9 +388,67 @@ def run_blob(label, path, kind):
             R.count('constructor_fault')
 
 
+# ------------------------------------------------------------------------------------------------ generated fan-out terms
+def run_slots(label, path):
+    """the range reads and destination slots that Gen/Faults.v records for the three I/O fan-outs, evaluated in Coq for
+    this file's parameters: the reads must be the ones the implementation issues, the slots must satisfy tasks_okb"""
+    r = SgzReader(path)
+    if r.is_2d:
+        return
+    ds = r.data_start_bytes
+    bs, P = r.blockshape, r.shape_pad
+    bpd = tuple(p // b for p, b in zip(P, bs))
+    jobs = []
+    if bs[0] == 4 and bs[1] == 4:
+        x = r.n_xlines - 1
+        cb, ub, bb = r.chunk_bytes, r.unit_bytes, r.block_bytes
+        jobs.append(('read_crossline', (x,),
+                     f'map (fun j => xl_set_read {cb} {P[1]} {4 * (x // 4)} j) (zrange 0 (xl_set_ntasks {P[0]}))',
+                     f'tasks_okb (Z.to_nat (xl_set_buflen {cb} {P[0]})) (xl_tasks {cb} {P[0]} {P[1]} {4 * (x // 4)})'))
+        z = r.n_samples // 2
+        jobs.append(('read_zslice', (z,),
+                     f'map (fun k => zslice_set_read {bb} {bs[2]} {cb} {ub} {z // bs[2]} {z} k) (zrange 0 (zslice_set_ntasks {bpd[0]} {bpd[1]}))',
+                     f'tasks_okb (Z.to_nat (zslice_set_buflen {bpd[0]} {bpd[1]} {ub})) (zslice_tasks {bb} {bs[2]} {cb} {ub} {z // bs[2]} {z} {bpd[0]} {bpd[1]})'))
+    elif bs[2] == 4:
+        z = r.n_samples // 2
+        bb = r.block_bytes
+        r1, r2 = int(4 * 4 * bs[1] * r.rate), int(P[1] * 4 * 4 * r.rate)
+        zf = z // bs[2]
+        tasks = f'(map (fun b => ztask (zslice_set_adv_read {bb} {bpd[1]} {bpd[2]} {zf} b) (zslice_set_adv_moves {bb} {bpd[1]} {bs[0]} {r1} {r2} b)) ' \
+                f'(zrange 0 (zslice_set_adv_ntasks {bpd[0]} {bpd[1]})))'
+        jobs.append(('read_zslice', (z,),
+                     f'map (fun b => zslice_set_adv_read {bb} {bpd[1]} {bpd[2]} {zf} b) (zrange 0 (zslice_set_adv_ntasks {bpd[0]} {bpd[1]}))',
+                     f'tasks_okb (Z.to_nat (zslice_set_adv_buflen {bb} {bpd[0]} {bpd[1]})) {tasks}'))
+    r.close()
+    for name, args, t_reads, t_ok in jobs:
+        f = CountingFile(path)
+        rr = SgzReader(f)
+        n0 = f.n
+        do_call(rr, name, args)
+        plan = [(o - ds, l) for o, l in f.all[n0:]]
+        rr.close()
+        try:
+            v_reads, v_ok = coq_eval(['SZ.Lib.Py', 'SZ.Gen.Faults', 'SZ.Model.Faults', 'SZ.Proofs.Faults'], [t_reads, t_ok])
+        except Exception as e:
+            R.violation('corr', {'file': label, 'call': name}, f'generated fan-out terms could not be evaluated: {str(e)[-500:]}')
+            continue
+        model_reads = [tuple(x) for x in parse_value(v_reads)]
+        R.case(('slots', label, name, args), sample={'file': label, 'call': name, 'generated_reads': model_reads[:3]})
+        R.count('generated_fanout_terms')
+        if model_reads != plan:
+            R.violation('corr', {'file': label, 'call': name, 'args': list(args)},
+                        f'generated read ranges {model_reads[:4]} differ from the implementation {plan[:4]}')
+        if v_ok.strip() != 'true':
+            R.violation('corr', {'file': label, 'call': name, 'args': list(args)},
+                        'tasks_okb is false for the generated slots of this file: slices overlap or leave the buffer')
+
+
 # ------------------------------------------------------------------------------------------------ main
 try:
     files = build_files()
+    if not a.no_model:
+        for label, path, kind in files:
+            run_slots(label, path)
     for label, path, kind in files:
         run_local(label, path, kind)
     for label, path, kind in files:
